@@ -373,5 +373,26 @@ def main():
     sys.exit(1 if violations else 0)
 
 
+def guarded_main():
+    """an exception inside the machinery itself (a decoder meeting something it has never seen, a worker dying) means the
+    property is no longer shown to hold on this tree: report it as such, with the traceback as the replay, instead of
+    leaving a bare traceback and no verdict line"""
+    try:
+        main()
+    except SystemExit:
+        raise
+    except BaseException as exc:      # noqa
+        import traceback
+        pid = next((a_ for a_ in sys.argv[1:] if not a_.startswith("-")), "C00")
+        os.makedirs(os.path.join(OUT, "replays"), exist_ok=True)
+        path = os.path.join(OUT, "replays", f"{pid}-harness-error.json")
+        json.dump({"property": pid, "kind": "correspondence-broken",
+                   "what": "the correspondence check itself failed to evaluate on this tree (exception below); no failing input "
+                           "was found, but the property is not shown to hold",
+                   "exception": repr(exc)[:500], "traceback": traceback.format_exc()[-4000:]}, open(path, "w"), indent=1)
+        print(f"VIOLATION property={pid} replay={path} no-failing-input-found")
+        sys.exit(1)
+
+
 if __name__ == "__main__":
-    main()
+    guarded_main()
